@@ -433,8 +433,8 @@ def part_directed(ctx, rec, exe):
 # ------------------------------------------------------------------------------------------ (c) statistics
 def part_statistics(ctx, rec, exe):
     alpha = 0.05
-    ntr = 160
-    nout = 40
+    ntr = 600
+    nout = 100
     summary = {}
     for typ in G.TYPES:
         n = 2
